@@ -218,7 +218,7 @@ Fixpoint N_digits_fuel (fuel : nat) (n : N) (acc : text) : text :=
   end.
 Definition text_of_N (n : N) : text := N_digits_fuel (S (N.to_nat (N.log2 n))) n [].
 
-(* re.search(r';\s*([a-zA-Z_]\w*)', s): the name after the first ';' that is followed, after optional
+(* re.search of the pattern  ; \s* ( [a-zA-Z_] \w* )  : the name after the first ';' that is followed, after optional
    white space, by an identifier (ASCII classes; the generator stays within ASCII) *)
 Fixpoint skip_space (l : text) : text :=
   match l with
@@ -236,7 +236,7 @@ Fixpoint comment_name (l : text) : option text :=
   | c :: tl =>
       if (c =? 59)%N
       then match skip_space tl with
-           | d :: _ as rest => if is_alpha_ d then Some (take_word rest) else comment_name tl
+           | (d :: _) as rest => if is_alpha_ d then Some (take_word rest) else comment_name tl
            | [] => comment_name tl
            end
       else comment_name tl
